@@ -83,11 +83,11 @@ CLAIMED = {
         text='Structural decision for every comparable type: eq, cmp and hash use the same key projection (views to other library types resolved), applied symmetrically; '
              'partial_cmp is Some(cmp); the 57 owned forwarders call the borrowed impl; *Parts derive all five traits; and for each of the 29 Borrow impls between library types '
              'the hash SHAPE (sequence of values fed to the hasher, Option adding a discriminant, recursively) of A equals that of the borrowed B — inequality is a definite '
-             'contract breach for any real hasher. The two families compare alike: the 164 URI/IRI twin pairs of eq / cmp / partial_cmp / hash have the same callees, constants and branches and apply each call to the same arguments (a self/other swap in one family would make a BTreeMap keyed by UriBuf unsearchable through Borrow<Iri>).',
+             'contract breach for any real hasher. Path::eq and Path::cmp of both families (the only hand-written comparison algorithms) are decided semantically by a small abstract execution of their MIR, once per combination of the two kinds, one loop iteration at a time, against one key table — (is_absolute, normalised segments...), false < true, a proper prefix is Less, equality = same kind and element-wise equal sequences — so they agree with each other whatever their texts look like. The two families compare alike otherwise: the URI/IRI twin pairs of eq / cmp / partial_cmp / hash have the same callees, constants and branches and apply each call to the same arguments (a self/other swap in one family would make a BTreeMap keyed by UriBuf unsearchable through Borrow<Iri>).',
         design_ref='DESIGN.md §4 C08, Engine C (C-key)',
         note='Coherence is structural (same key), not a value-level proof that cmp==Equal ⇔ eq. Genuine defects F4 (Uri/Iri vs reference hash) and F8 (DataUrlBuf derived over derived data) were repaired by fix: commits; '
              'the check reports all 7 pairs on the pre-fix tree.',
-        technique='key-projection and hash-shape extraction from MIR / impl tables (static analysis)',
+        technique='key-projection and hash-shape extraction from MIR / impl tables + abstract execution of the hand-written comparison loops against a key table (static analysis)',
         engine='C',
     ),
     'C09': dict(
